@@ -237,3 +237,16 @@ CHECKS["C05"] = {
     "assumptions": ["the sender's durable view is read on the sender's goroutine when the message leaves", "a crash ends the node's ready-loops at an event boundary; nothing is persisted afterwards"],
     "min": {"any": {"raft_messages_checked": 5000, "restarts": 3, "replica_contents_checked": 10}},
 }
+
+CHECKS["C18"] = {
+    "pkg": "./c18", "run": "^TestC18$", "level": "exploration",
+    "mem_gb": {"quick": 0, "thorough": 0},
+    "technique": "runtime monitor: bounded progress of catalogue/membership calls on in-process real servers under join/remove/re-join bursts interleaved with create/delete and a restart replay, with a structural wait-for-cycle detector over goroutine dumps (two dumps 3 s apart) as the deciding criterion on a stall",
+    "level_text": "Real 3-node clusters in one process: under-replicated datasets are created (so the allocator loop itself proposes catalogue changes), then node 3 joins, is removed and re-joins 2-4 times while datasets are created and deleted concurrently from both other nodes, with scheduling noise at the allocator's lock/hand-over points; then a node with existing datasets is restarted (replay burst) and must answer List and apply a marker. A stall is a violation only if the goroutine dumps show one of the control plane's lock-and-channel wait-for cycles persisting across two dumps; any other stall is inconclusive.",
+    "level_note": "Interleavings are sampled; notification bursts of more than 10 pending changes (third cycle of DESIGN 5/C18) are not reached with 3 nodes; wall clock only triggers the dump analysis, the verdict is structural.",
+    "shards": {"quick": 6, "thorough": 16},
+    "timeout": {"quick": 900, "thorough": 3400},
+    "rule": "case c = seeded burst (2..4 join/remove cycles of node 3, 10 catalogue operations, 2..4 under-replicated datasets) + restart of node 1 or 2; non-trivial = the scenario ran to the final marker; distinct = digest of the step list",
+    "assumptions": ["a goroutine dump taken in-process shows every server's goroutines; cycles are recognised by frame names"],
+    "min": {"any": {"progress_checks": 10, "restarts_completed": 2}},
+}
